@@ -520,7 +520,10 @@ class Consumer(object):
 
         # If we're currently processing a commit we return a failure
         # with a deferred we'll fire when the in-progress one completes
-        if self._commit_ds:
+        # (inside stop() the request is briefly still registered after its waiters
+        # have been cancelled: a commit() from one of their callbacks must get the
+        # same answer, not an exception raised out of this method)
+        if self._commit_ds or (self._stopping and self._commit_req is not None):
             d = Deferred()
             self._commit_ds.append(d)
             return fail(OperationInProgress(d))
